@@ -74,6 +74,12 @@ Proof.
   intros Ho Hr Hm. unfold needs_build_post. rewrite Hm, (common_rec_ext st st' _ Ho), (source_key_ext _ _ _ _ Hr). reflexivity.
 Qed.
 
+(* the loop of readRuleHashFromXattrs as regenerated from the source compares every record with the one seen before
+   (EngineRecord.read_record_loop contains RDifferentFails): with "first output only" this is false and common_rec_each,
+   hence every theorem that trusts a record, stops checking *)
+Lemma rec_all_equal_true : rec_all_equal = true.
+Proof. reflexivity. Qed.
+
 Lemma common_rec_all st rk rels : rels <> [] -> (forall rel, In rel rels -> rec_at st rel = Some rk) ->
   common_rec st rels = Some rk.
 Proof.
@@ -81,7 +87,7 @@ Proof.
   cbn [common_rec]. destruct rest as [|y rest'].
   - apply H. left. reflexivity.
   - rewrite (H x) by (left; reflexivity). rewrite IH; [|discriminate|intros z Hz; apply H; right; exact Hz].
-    rewrite rkey_eqb_refl. reflexivity.
+    rewrite rec_all_equal_true, rkey_eqb_refl. reflexivity.
 Qed.
 
 (* a record shared by all outputs is the record of each *)
@@ -92,6 +98,7 @@ Proof.
   - destruct Hin as [<-|[]]. exact H.
   - destruct (rec_at st x) as [a|] eqn:Ea; [|discriminate].
     destruct (common_rec st (y :: rest')) as [b|] eqn:Eb; [|discriminate].
+    rewrite rec_all_equal_true in H.
     destruct (rkey_eqb_spec a b) as [->|]; [|discriminate]. injection H as ->.
     destruct Hin as [<-|Hin]; [exact Ea|]. apply IH; [reflexivity|exact Hin].
 Qed.
